@@ -846,6 +846,38 @@ type knAbs struct {
 	n     int
 }
 
+// edgeState: the valuations with which the edge p -> succ can be taken: state[p] filtered by p's
+// own test when that test is an atom.
+func (a *knAbs) edgeState(p, succ *ssa.BasicBlock) []uint64 {
+	st := a.state[p]
+	if st == nil || a.n == 0 {
+		return st
+	}
+	iff, ok := lastIf(p)
+	if !ok || len(p.Succs) != 2 || p.Succs[0] == p.Succs[1] {
+		return st
+	}
+	recv, kind, neg, ok := condAtom(iff.Cond)
+	if !ok {
+		return st
+	}
+	ai := a.atomOf(recv, kind)
+	if ai < 0 {
+		return st
+	}
+	val := (p.Succs[0] == succ) != neg
+	out := make([]uint64, len(st))
+	for v := 0; v < 1<<uint(a.n); v++ {
+		if st[v/64]&(1<<uint(v%64)) == 0 {
+			continue
+		}
+		if (v&(1<<uint(ai)) != 0) == val {
+			out[v/64] |= 1 << uint(v%64)
+		}
+	}
+	return out
+}
+
 func (a *knAbs) atomOf(v ssa.Value, kind string) int {
 	for i, at := range a.atoms {
 		if at.kind == kind && sameKnownClass(at.rep, v) {
